@@ -134,6 +134,11 @@ def run_c02(pid):
 
 
 # =============================================================================== C01
+# block sizes at which the high partition orders are legal (2^k, 3 * 2^k, 5 * 2^k, 9 * 2^k), their neighbours, the limits of the field
+BIG_BS = sorted(set([1 << k for k in range(8, 16)] + [3 << k for k in range(7, 15)] + [5 << 12, 5 << 13, 9 << 11, 15 << 12, 65535, 65534, 65520, 65280, 61440, 49151,
+                     32767, 32769, 16383, 4608, 1152, 576, 2304, 18432, 36864]))
+
+
 def partition_layout_checks(wd, t):
     """TLC evaluates PartitionLayout's statements over the grid; defect-enabled variants must fail."""
     res = {}
@@ -142,6 +147,7 @@ def partition_layout_checks(wd, t):
         mp = write_text(os.path.join(wd, "MCP_%s.tla" % name), """---- MODULE MCP_%s ----
 EXTENDS PartitionLayout
 cDefects == %s
+cBig == %s
 ASSUME PrintT(<<"STAT", "agree", Agree>>)
 ASSUME PrintT(<<"STAT", "decsound", DecoderSound>>)
 ASSUME PrintT(<<"STAT", "decstrict", DecoderStrict>>)
@@ -149,13 +155,14 @@ VARIABLE x
 Init == x = 0
 Next == x' = x
 ====
-""" % (name, tla_set(defects)))
+""" % (name, tla_set(defects), "{" + ", ".join(str(b) for b in (BIG_BS if name == "fixed" else [])) + "}"))
         cp = write_text(os.path.join(wd, "MCP_%s.cfg" % name), """CONSTANTS
  MaxBs = %d
  MaxOrder = 32
  MaxPoOpt = 15
  MaxPartitions = 64
  Defects <- cDefects
+ BigBs <- cBig
 INIT Init
 NEXT Next
 """ % maxbs)
@@ -183,7 +190,7 @@ def run_c01(pid):
     build_harness("release")
     pl = partition_layout_checks(wd, t)
     grid_bs = 160 if t == "quick" else 300
-    grid_points = grid_bs * 33 * 16
+    grid_points = (grid_bs + len(BIG_BS)) * 33 * 16
     log("[%s] TLC: PartitionLayout Agree/DecoderSound hold on bs<=%d x order<=32 x maxpo<=15 (%d points); 3 defect models refuted; DecoderStrict=%s"
         % (pid, grid_bs, grid_points, pl["fixed"]["decstrict"]))
     # Codec (A) tiny exhaustive configuration
@@ -214,6 +221,7 @@ def run_c01(pid):
  MaxPoOpt = 0
  MaxPartitions = 64
  Defects = {}
+ BigBs = {}
 SPECIFICATION Spec
 POSTCONDITION Post
 CHECK_DEADLOCK FALSE
